@@ -16,8 +16,8 @@ RULE = (
 ASSUMPTIONS = ["'assign' means setattr / attribute assignment; del, __dict__ pokes and object.__setattr__ are outside the statement"]
 
 # the last ones: values that are costly or impossible to render (CPython refuses str() of ints beyond 4300 digits)
-VALUES = [0, 1, -1, 3.5, "x", b"\x00", None, True, [], {"a": 1}, 1 << 16384, [-(1 << 20000)], "y" * 100000, float("nan")]
-FRESH = ["foo", "DF999", "x", "_y", "__z", "NSat2", "payload2", "DF002_01", "_immutable", "payload", "identity", "ismsm", "_payload", "_payloadi", "_payblen", "_labelmsm", "_unknown", "_satmap", "_cellmap", "__dict__", "__class__", "100%", "%d", "%(b)s", "a%", "{}", "{0}", "{name}", "a b", "", "\u00e9", "\\", "DF002\n", "1DF"]
+VALUES = [0, 1, -1, 3.5, "x", b"\x00", None, True, [], {"a": 1}, 1 << 16384, [-(1 << 20000)], "y" * 100000, float("nan"), len, lambda *a, **k: b"\xd3\x00\x00", bytes]
+FRESH = ["foo", "DF999", "x", "_y", "__z", "NSat2", "payload2", "DF002_01", "_immutable", "payload", "identity", "ismsm", "_payload", "_payloadi", "_payblen", "_labelmsm", "_unknown", "_satmap", "_cellmap", "__dict__", "__class__", "100%", "%d", "%(b)s", "a%", "{}", "{0}", "{name}", "a b", "", "\u00e9", "\\", "DF002\n", "1DF", "serialize", "_do_attributes", "_get_dict", "__str__", "__repr__", "__setattr__", "__init__"]
 
 
 def _r(v):
@@ -116,15 +116,21 @@ def o_setattr(case):
             raise Fail("wrong-exception", f"setattr({name!r}, {_r(val)}) on {before[1]} raised {type(e).__name__}: {e}") from e
         else:
             raise Fail("assignment-accepted", f"setattr({name!r}, {_r(val)}) on a {before[1]} message did not raise")
-        if case.get("direct") and name.isidentifier() and (not name.startswith("_") or name == "_payload") and hasattr(m, name):
-            # augmented assignment is an assignment attempt too: m.name += v must raise and change nothing
+        if case.get("direct") and ((name.isidentifier() and not name.startswith("__") and name in m.__dict__) or name in ("payload", "identity")):
+            # augmented assignment is an assignment attempt too: m.name += v must raise and change nothing (a mutable
+            # private value - list, dict, set - would be changed in place before the assignment is refused)
             cur = getattr(m, name)
             inc = next((v for t, v in AUG.items() if type(cur) is t), None)
             if isinstance(cur, (bytes, bytearray)):
                 inc = b"\x00"
+            op = "+="
+            if isinstance(cur, list):
+                inc = [names[0]]
+            elif isinstance(cur, (dict, set)):
+                op, inc = "|=", ({names[0]: 1} if isinstance(cur, dict) else {names[0]})
             if inc is not None:
                 try:
-                    exec(f"m.{name} += inc", {"m": m, "inc": inc})  # pylint: disable=exec-used
+                    exec(f"m.{name} {op} inc", {"m": m, "inc": inc})  # pylint: disable=exec-used
                 except RTCMMessageError:
                     pass
                 except Exception as e:  # pylint: disable=broad-except
